@@ -433,7 +433,7 @@ def _impl_verify(scn, root, repeat):
                 summary = vl.in_toto_verify(
                     md, {k: json.loads(json.dumps(v)) for k, v in scn.keys.items()},
                     link_dir_path=os.path.join(root, "links"),
-                    substitution_parameters=params, persist_inspection_links=False,
+                    substitution_parameters=params, persist_inspection_links=bool(scn.meta.get("persist_links", False)),
                     inspect_timeout=scn.meta.get("inspect_timeout", 10))
             out["result"] = {"ok": canon(attr.asdict(summary))}
         except BaseException as e:  # pylint: disable=broad-except
